@@ -6,6 +6,7 @@ import (
 	"time"
 
 	"github.com/goatcms/goatcore/varutil/goaterr"
+	"github.com/goatcms/goatcore/varutil/verifhook"
 )
 
 // Dir is single directory
@@ -131,6 +132,7 @@ func (d *Dir) mkdir(name string, mode os.FileMode) (dir *Dir, err error) {
 	if dir, err = d.getDir(name); err == nil {
 		return dir, nil
 	}
+	verifhook.Yield("memfs.mkdir.gap")
 	d.mu.Lock()
 	defer d.mu.Unlock()
 	if node, ok = d.index[name]; ok {
